@@ -3,7 +3,7 @@ Model.CallCtx (level B) and the truthful-status / aligned-stack relations (level
 runtime.callcontext / pcall that observe their own context (kill, used, stop, flags, status, due) — spec relations
 only, since the CPU cost of Lua code is not modelled."""
 import re
-from . import common, luaquota
+from . import common, luaquota, quotaprobes
 
 STATUS_OF_EXIT = {"done": 1, "error": 2, "killed": 3}
 
@@ -103,7 +103,12 @@ class NestGen:
                 body.append('obs("%s:post")' % tag)
             elif k < 75 and depth < 3:
                 body.append("pcall(function() " + self.node(depth + 1) + " end)")
+            elif k < 79:
+                body.append('emit("RAISE", "%s") error("E%s", 0)' % (tag, tag))
             elif k < 83:
+                # a pending to-be-closed handler that works while the error unwinds: it runs in this context
+                body.insert(1, 'local cl <close> = setmetatable({}, {__close = function() burn(%d) end})'
+                            % r.choice([5, 80, 600, 4000]))
                 body.append('emit("RAISE", "%s") error("E%s", 0)' % (tag, tag))
             else:
                 body.append('obs("%s:mid")' % tag)
@@ -220,6 +225,12 @@ def lua_leg(ctx, n):
         check_nest(ctx, pid, src, r)
         ctx.case(src, src.count("callcontext") >= 2)
     ctx.sample("lua nest program: " + progs[0][1][len(OBS):][:300])
+    # pending to-be-closed handlers run in the context being left, under its limits, on every exit path: a
+    # handler that burns past the limit ends the context `killed` (not `error`) with bounded consumption
+    for res in ("cpu", "memory"):
+        quotaprobes.callback_leg(ctx, runner, res, prefix="c07", sites={
+            "close-normal-exit", "close-error-exit", "close-error-exit-of-context", "close-error-exit-inner-context",
+            "xpcall-handler", "xpcall-handler-in-pcall"})
     # the coroutine/pcall interleaving that breaks the bracket discipline
     for pid, src in PROBE_YIELD:
         r = luaquota.run_batch(runner, [(pid, src)]).get(pid)
